@@ -12,6 +12,7 @@ CONSTANTS
   Paths <- PathsMC
   Cat <- CatMC
   Inert <- NestedFlows
+  CleanSkips = {}
   Unseen = {}
   NestedPP = {}
   NestedFlows = {}
@@ -25,5 +26,5 @@ CONSTANTS
   StaleBackup = FALSE
   RecordHistory = FALSE
 SPECIFICATION SpecMC
-INVARIANTS DiskAtomic BehavAtomic NeverHalf OneConfig
+INVARIANTS DiskAtomic BehavAtomic NeverHalf OneConfig Complete
 CHECK_DEADLOCK FALSE
